@@ -56,7 +56,7 @@ def impl(case):
         return ctl.nodes[v]
 
     for op in case["ops"]:
-        ctl.begin(None)
+        ctl.begin(op.get("faults"))
         res = "ok"
         try:
             k = op["op"]
@@ -71,11 +71,16 @@ def impl(case):
                 cs = op["cs"]
                 kids = None if cs is None else (5 if cs == "x" else [arg(x) for x in cs])
                 cls(parent=arg(op["p"]), children=kids)
+        except RecursionError:
+            res = "RecursionError"
         except Exception as e:
             res = f_forest.exc_tag(e)
+        ctl.begin(None)
         lab = ctl.label
         nav = {str(i): attrs(n, lab) for i, n in enumerate(ctl.nodes)}
         ca = [[lab(x) for x in autil.commonancestors(*[ctl.nodes[l] for l in tup if l < len(ctl.nodes)])]
               for tup in tups]
         out.append({"res": res, "nav": nav, "ca": ca})
+        if res == "RecursionError":
+            break
     return out
